@@ -129,11 +129,34 @@ def _dump_one(unit, flags, outdir):
     return out, time.time() - t, err
 
 
+def dump_file(path, flt="coloquinte", extra_flags=()):
+    """Dump one stand-alone file (self-test positive controls, stubs). Cached by content."""
+    flags, _o = compdb_flags()
+    h = hashlib.sha256(open(path, "rb").read() + " ".join(list(flags) + list(extra_flags) + [flt]).encode() + tree_hash().encode()).hexdigest()[:20]
+    outdir = os.path.join(CACHE, "files")
+    os.makedirs(outdir, exist_ok=True)
+    out = os.path.join(outdir, os.path.basename(path) + "." + h + ".json")
+    if os.path.exists(out) and os.path.getsize(out) > 0:
+        return out
+    cmd = [CLANG] + BASE_FLAGS + flags + list(extra_flags) + ["-Xclang", "-ast-dump=json", "-Xclang",
+                                                               "-ast-dump-filter=" + flt, path]
+    tmp = out + ".tmp%d" % os.getpid()
+    with open(tmp, "wb") as fo:
+        r = subprocess.run(cmd, stdout=fo, stderr=subprocess.PIPE)
+    if r.returncode != 0 or os.path.getsize(tmp) == 0:
+        err = r.stderr.decode(errors="replace")
+        os.unlink(tmp)
+        raise AnalysisBroken("clang failed on %s:\n%s" % (path, err[-3000:]))
+    os.rename(tmp, out)
+    return out
+
+
 def _evict(keep):
     try:
         ents = [(os.path.getmtime(os.path.join(CACHE, d)), d) for d in os.listdir(CACHE)]
     except OSError:
         return
+    ents = [e for e in ents if e[1] != "files"]
     ents.sort(reverse=True)
     for _, d in ents[keep:]:
         shutil.rmtree(os.path.join(CACHE, d), ignore_errors=True)
